@@ -72,6 +72,9 @@ type mon struct {
 	refused    int
 	transient  int
 	innerBuggy bool // the inner listener hands out a connection after its own Close
+	concClose  bool // the two Closes of a connection come from two threads
+	helpers    int
+	helpersEnd int
 }
 
 func (m *mon) failf(sig, f string, a ...any) {
@@ -111,6 +114,13 @@ func (m *mon) acceptCloseTwice(who string) {
 	}
 	vsched.Yield()
 	m.open--
+	if m.concClose {
+		// net.Conn allows concurrent calls: the second Close races with the first
+		m.helpers++
+		vsched.GoNamed(who+"/close2", func() { c.Close(); m.helpersEnd++ })
+		c.Close()
+		return
+	}
 	c.Close()
 	c.Close()
 }
@@ -122,7 +132,7 @@ func (m *mon) judge(o vsched.Outcome, threads int) vsched.Verdict {
 	if o.Panic != "" {
 		return vsched.Verdict{Sig: "C58/panic", What: o.Panic, Obs: "panic"}
 	}
-	if o.Deadlock || m.done != threads {
+	if o.Deadlock || m.done != threads || m.helpersEnd != m.helpers {
 		sig := "C58/blocked-forever"
 		if m.closedDone {
 			sig = "C58/accept-after-close/blocked"
@@ -143,6 +153,7 @@ func programs(thorough bool) []vsched.Program {
 		spurious            int
 		lateAcceptor        bool
 		tempErrs            int
+		concClose           bool
 	}
 	cfgs := []cfg{
 		{n: 1, acceptors: 2, iters: 1},
@@ -155,6 +166,7 @@ func programs(thorough bool) []vsched.Program {
 		{n: 1, acceptors: 2, iters: 1, tempErrs: 1},
 		{n: 2, acceptors: 3, iters: 1, tempErrs: 1},
 		{n: 1, acceptors: 2, iters: 1, closer: true, tempErrs: 1},
+		{n: 1, acceptors: 2, iters: 1, concClose: true},
 	}
 	if thorough {
 		cfgs = append(cfgs,
@@ -164,15 +176,20 @@ func programs(thorough bool) []vsched.Program {
 			cfg{n: 1, acceptors: 2, iters: 2, closer: true, lateAcceptor: true},
 			cfg{n: 2, acceptors: 3, iters: 1, tempErrs: 2},
 			cfg{n: 1, acceptors: 2, iters: 2, tempErrs: 2},
+			cfg{n: 2, acceptors: 3, iters: 1, concClose: true},
+			cfg{n: 1, acceptors: 2, iters: 1, closer: true, concClose: true},
 		)
 	}
 	for _, k := range cfgs {
 		k := k
 		name := fmt.Sprintf("L/n=%d/acceptors=%d/iters=%d/closer=%v/spurious=%d/late=%v/temperrs=%d", k.n, k.acceptors, k.iters, k.closer, k.spurious, k.lateAcceptor, k.tempErrs)
+		if k.concClose {
+			name += "/concurrent-close"
+		}
 		ps = append(ps, vsched.Program{Name: name, MaxSteps: 800, Body: func() func(vsched.Outcome) vsched.Verdict {
 			inner := &fakeListener{spurious: k.spurious, tempErrs: k.tempErrs}
 			ll := LimitListener(inner, k.n).(*limitListener)
-			m := &mon{n: k.n, ll: ll, innerBuggy: k.spurious > 0}
+			m := &mon{n: k.n, ll: ll, innerBuggy: k.spurious > 0, concClose: k.concClose}
 			threads := 0
 			for a := 0; a < k.acceptors; a++ {
 				a := a
@@ -212,9 +229,9 @@ func programs(thorough bool) []vsched.Program {
 func TestVerif_C58(t *testing.T) {
 	vx.Run(t, "C58", func(c *vx.Ctx) {
 		bounds := vx.Pick(c, []int{2}, []int{3, -1})
-		c.Rule("every schedule with at most B preemptions (quick B=2; thorough: B=3, then unbounded, the largest completed bound per program is recorded) of acceptor/closer programs over the instrumented netutil.LimitListener (n in {1,2}; 1-3 acceptors each Accept -> Close -> Close; optional Listener.Close incl. repeated, a late Accept after Close returned, an inner listener that hands out a spurious connection after close, and an inner listener whose Accept fails with transient (Temporary) errors before delivering a connection, after which the acceptor retries); scheduling point before every channel operation/select/Once and inside the fake listener and connection; evaluations = complete executions")
+		c.Rule("every schedule with at most B preemptions (quick B=2; thorough: B=3, then unbounded, the largest completed bound per program is recorded) of acceptor/closer programs over the instrumented netutil.LimitListener (n in {1,2}; 1-3 acceptors each Accept -> Close -> Close, the two Closes either in sequence or concurrently from two threads; optional Listener.Close incl. repeated, a late Accept after Close returned, an inner listener that hands out a spurious connection after close, and an inner listener whose Accept fails with transient (Temporary) errors before delivering a connection, after which the acceptor retries); scheduling point before every channel operation/select/Once and inside the fake listener and connection; evaluations = complete executions")
 		c.Assume("in the variant whose inner listener hands out a spurious connection after its own Close (the situation listen.go comments on), 'Accept after Close returns an error' is not asserted — the wrapper cannot know better than its inner listener when select picks the free slot — only the limit, slot accounting and absence of blocking are")
-		c.Assume("a connection counts as closed from the moment its Close is called; synchronisation-operation granularity (L3)")
+		c.Assume("a connection counts as closed from the moment its Close is called; synchronisation-operation granularity (L3); unsynchronised accesses are looked for separately: in the thorough tier the same programs run free-running in a -race build and a data race between two accesses in listen.go is reported (sampling)")
 		vsched.RunBounds(c, "sched", programs(!c.Quick()), bounds)
 	})
 }
